@@ -1398,7 +1398,7 @@ FINDINGS = [
      "what": "a second exists_elim in a scope that already has one (generated goal ~B --> (?x. Q x & Q x) --> ~B, exists_elim with names k at a "
              "later gap, then exists_elim with names k1 at an earlier gap): the intros line keeps a hypothesis Q k1 & Q k1 and the state "
              "does not re-check"},
-    {"status": "fixed", "key": "import-fails:cases:TypeInferenceException:_Unspecified_type_Var(k,", "commit": "1298669",
+    {"status": "fixed", "key": "import-fails:cases:TypeInferenceException:_Unspecified_type_Var(k,", "commit": "8d0afa4",
      "what": "get_vars(id) put the variable declared at line id in scope of a line inserted before it (nat.mult_1_right: new_var k at 0, "
              "cut `k` at 0): the export mentions k before its declaration and cannot be re-imported"},
     {"status": "known", "key": "recheck-fails:fact-with-foreign-hypothesis",
@@ -1406,22 +1406,22 @@ FINDINGS = [
              "sequent, after which the lines citing it do not re-check (generated goal (A --> B) --> ~B --> ~A: cut ~B three times, "
              "revert_intro goal 5 fact 1, apply_backward_step negE_gen goal 4 fact 2). Refusing in apply_tactic alone would make search "
              "suggest steps that apply refuses; a fix has to filter in every search as well"},
-    {"status": "fixed", "key": "import-fails:induction:TypeError:", "commit": "bd71214",
+    {"status": "fixed", "key": "import-fails:induction:TypeError:", "commit": "8aad925",
      "what": "a state with an apply_induct line (any use of the induction method, e.g. list.append_right_neutral) could not be re-imported: "
              "parser.parse_args had no case for Tuple[str, Term, Term]"},
-    {"status": "fixed", "key": "recheck-fails:revert_intro:CheckProofException:_output_does_not", "commit": "d38ff66",
+    {"status": "fixed", "key": "recheck-fails:revert_intro:CheckProofException:_output_does_not", "commit": "e20167b",
      "what": "revert_intro on an assumption that is not the last one introduced / is used elsewhere / whose goal is not followed by intros "
              "left an uncheckable state (recorded proof of set.card_image_inj; logic_base.classical_cases goal 2 fact 0)"},
-    {"status": "fixed", "key": "goal-changed:rewrite_fact_with_prev:last_line_is_`|-", "commit": "62953a8",
+    {"status": "fixed", "key": "goal-changed:rewrite_fact_with_prev:last_line_is_`|-", "commit": "e61016c",
      "what": "rewrite_fact / rewrite_fact_with_prev / apply_forward_step with a proved line selected as goal deleted that line when an earlier "
              "line had the same sequent (nat.mult_eq_1: the final line disappeared)"},
-    {"status": "fixed", "key": "recheck-fails:nat_norm:AssertionError:_nat_norm_macro:_normalization_is", "commit": "151912d",
+    {"status": "fixed", "key": "recheck-fails:nat_norm:AssertionError:_nat_norm_macro:_normalization_is", "commit": "580dfe6",
      "what": "nat_norm method completed on equalities its macro cannot prove (nat_norm_macro.eval returned the goal unchecked)"},
-    {"status": "fixed", "key": "recheck-fails:introduction:IndexError:_list_index_out", "commit": "25c298f",
+    {"status": "fixed", "key": "recheck-fails:introduction:IndexError:_list_index_out", "commit": "4c6677c",
      "what": "introduction's already-proved loop removed the conclusion of the new subproof / replaced an assumption by a proved fact; "
              "a given name captured a free variable of the goal (nat.mult_eq_1 `!n. m * n = 1 ...` with name m)"},
-    {"status": "fixed", "key": "recheck-fails:exists_elim:AssertionError:_intros_macro", "commit": "e2e667f",
+    {"status": "fixed", "key": "recheck-fails:exists_elim:AssertionError:_intros_macro", "commit": "27f9eb0",
      "what": "exists_elim on a line that is not a gap (logic.right_or_exists_thm, goal 0.2.1 = `assume P`) added a hypothesis to assume lines"},
-    {"status": "fixed", "key": "recheck-fails:rewrite_goal_with_prev:AssertionError:_export:_atom", "commit": "5d4969d",
+    {"status": "fixed", "key": "recheck-fails:rewrite_goal_with_prev:AssertionError:_export:_atom", "commit": "23d0687",
      "what": "rewrite_goal_with_prev with a fact like 0 = 0 left the goal unchanged and an uncheckable line (nat.lt_exp)"},
 ]
